@@ -252,7 +252,7 @@ func runC03(a *Args) error {
 	rng := NewRng(a.Seed)
 	prelude := "From NV Require Import Base C03_Model C03_PluginModel.\nOpen Scope string_scope.\n"
 	w := NewCaseWriter(a, "C03", prelude, "xcase", "xrun")
-	w.Rule = "placements of the signing chain's root/intermediate/leaf, of twin certificates (same subject and key, other serial), of unrelated and TSA certificates into named stores of the types ca/signingAuthority/tsa; statement trust-store lists with duplicates, several types, unknown and failing stores; 1-4 statements with exact/wildcard/foreign/case-variant scopes; both schemes, both envelope formats, with and without a timestamp countersignature (in-process TSA). Families: exhaustive (all lists of length<=2 (thorough <=3) over {ca:a,signingAuthority:a,tsa:a,ca:b} x 5 root placements x 2 schemes x 4 failure patterns); random scenarios (right store / wrong type / unlisted / other statement / tsa / load error); real truststore.NewX509TrustStore on a directory (fs asked from the store itself); malformed lists injected after validation (correspondence only); rare-names (store names differing by case only, leading dots, type words as names; empty vs nil slice vs nil element answers); positions (the trusted store at every list position x 13 kinds of odd element at every other position, matched chain certificate and its place inside the store rotating); statement-positions (all 24 orders of exact/wildcard/foreign/case-variant statements x which one lists the trusted store x 7 references incl. upper-case host and port); history (ONE verifier and ONE store object, 2-4 Verify calls with the store content, scheme, chain or repository changed in between; every operator after every start state in both directions plus random sequences; each step its own case); namespaces (one verifier holding an OCI and a blob document whose statements share names, Verify and VerifyBlob alternating); blob-selection (three blob statements named P / p / P2 in every order, the trusted store listed by one of them, the global flag on none or each, called by each name, by a name nobody has, and without a name); plugin (the signature names a verification plugin: capabilities none / non-verification / TI / Rev / TI+Rev / Rev+TI x trusted-identity verdict x level strict / audit / strict with authenticity=log / permissive x trust situation anchored / not anchored / other-type store only / unloadable listed store with the good store at every position x both schemes; observed: the authenticity result the outcome FINALLY reports); fs-symlink (the REAL directory store on a tree built by the driver: the listed store of the scheme's type is a real directory / a symlink to a store of the other type, to a tsa store, to an unlisted store of the same type, to a directory outside the tree (relative, absolute) / a real directory with a symlinked certificate file / missing, alone and at both positions next to a loadable store, before the real store, after a tsa store; the model's trust store is the CONSTRUCTION (only a real directory of that type loads), not what the store answers). Each case runs the real verifier.Verify or VerifyBlob. non-trivial = an authenticity result exists and some chain certificate sits in some store; distinct = distinct canonical inputs"
+	w.Rule = "placements of the signing chain's root/intermediate/leaf, of twin certificates (same subject and key, other serial), of unrelated and TSA certificates into named stores of the types ca/signingAuthority/tsa; statement trust-store lists with duplicates, several types, unknown and failing stores; 1-4 statements with exact/wildcard/foreign/case-variant scopes; both schemes, both envelope formats, with and without a timestamp countersignature (in-process TSA). Families: exhaustive (all lists of length<=2 (thorough <=3) over {ca:a,signingAuthority:a,tsa:a,ca:b} x 5 root placements x 2 schemes x 4 failure patterns); random scenarios (right store / wrong type / unlisted / other statement / tsa / load error); real truststore.NewX509TrustStore on a directory (fs asked from the store itself); malformed lists injected after validation (correspondence only); rare-names (store names differing by case only, leading dots, type words as names; empty vs nil slice vs nil element answers); positions (the trusted store at every list position x 13 kinds of odd element at every other position, matched chain certificate and its place inside the store rotating); statement-positions (all 24 orders of exact/wildcard/foreign/case-variant statements x which one lists the trusted store x 7 references incl. upper-case host and port); history (ONE verifier and ONE store object, 2-4 Verify calls with the store content, scheme, chain or repository changed in between; every operator after every start state in both directions plus random sequences; each step its own case); namespaces (one verifier holding an OCI and a blob document whose statements share names, Verify and VerifyBlob alternating); blob-selection (three blob statements named P / p / P2 in every order, the trusted store listed by one of them, the global flag on none or each, called by each name, by a name nobody has, and without a name); plugin (the signature names a verification plugin: capabilities none / non-verification / TI / Rev / TI+Rev / Rev+TI x trusted-identity verdict x level strict / audit / strict with authenticity=log / permissive x trust situation anchored / not anchored / other-type store only / unloadable listed store with the good store at every position x both schemes; observed: the authenticity result the outcome FINALLY reports); fs-symlink (the REAL directory store on a tree built by the driver: the listed store of the scheme's type is a real directory / a symlink to a store of the other type, to a tsa store, to an unlisted store of the same type, to a directory outside the tree (relative, absolute) / a real directory with a symlinked certificate file / missing, alone and at both positions next to a loadable store, before the real store, after a tsa store; the model's trust store is the CONSTRUCTION (only a real directory of that type loads), not what the store answers); nested (ONE verifier, no goroutines: verification A, already verified once on that verifier, runs with a context logger that at its n-th log call - every n = 1..K, K = the log calls of that Verify - runs a COMPLETE verification B scoped to another statement with other trust stores on the same verifier and then lets A continue; A and B each judged on their own input with their own call log; both roles, both schemes, B = A's reference as control). Each case runs the real verifier.Verify or VerifyBlob. non-trivial = an authenticity result exists and some chain certificate sits in some store; distinct = distinct canonical inputs"
 	w.Assumptions = []string{
 		"certificate identity is x509.Certificate.Equal (ids assigned by Equal); notation-core-go VerifyAuthenticity is an input-independent dependency (some chain certificate Equal some trust certificate)",
 		"the trust store is a function of (type, name) during one Verify; for the real directory store its answers are obtained by direct calls before Verify",
